@@ -273,9 +273,12 @@ def cgsmiles_strings(seed, n_random, weights=False, pairs='some', stereo=True, m
         yield from single_fragment_strings()
         if pairs == 'all':
             yield from pair_strings(SITES2, SITES1 + SITES2)
+        elif pairs == 'most':
+            yield from pair_strings(SITES2, SITES1)
+            yield from pair_strings(SITES2[:12], SITES2[:12])
         elif pairs == 'some':
             yield from pair_strings(SITES2[:8], SITES1[:6] + SITES2[:8])
-        yield from homopolymers((3,) if pairs != 'all' else (3, 5))
+        yield from homopolymers((3, 5) if pairs in ('all', 'most') else (3,))
     rng = random.Random(seed * 104729 + (17 if weights else 5))
     for i in range(n_random):
         if i % 3 == 2:
